@@ -390,9 +390,9 @@ theorem and_if_sound : Sound R.and_if := by
   · simp [fun v => eval_bvv_err env v p.w hw, foldVals] at hwt
 
 /-- every schema of the table is sound -/
-theorem all_sound : ∀ s ∈ R.all, Sound s := by
+theorem base_sound : ∀ s ∈ R.base, Sound s := by
   intro s hs
-  simp only [R.all, List.mem_cons, List.mem_nil_iff, or_false] at hs
+  simp only [R.base, List.mem_cons, List.mem_nil_iff, or_false] at hs
   rcases hs with h | h | h | h | h | h | h | h | h | h | h | h | h | h | h | h | h | h | h | h | h | h | h | h | h | h | h | h |
     h | h | h | h | h | h | h | h | h | h | h | h | h | h | h | h | h | h | h | h | h | h | h | h | h | h | h | h <;> subst h
   · exact shl_zero_sound
